@@ -275,6 +275,10 @@ func evalCase(d caseDesc) ev.Result {
 			t.Nonce = refcbor.B(make([]byte, 16))
 		case "nonce-short":
 			t.Nonce = refcbor.B(sessionNonce[:15])
+		case "nonce-long":
+			t.Nonce = refcbor.B(append(append([]byte{}, sessionNonce...), 0))
+		case "nonce-long16":
+			t.Nonce = refcbor.B(append(append([]byte{}, sessionNonce...), sessionNonce...))
 		case "nonce-is-hello-nonce":
 			t.Nonce = refcbor.B(m.Nonce)
 		case "swap-nonce-ueid":
@@ -525,7 +529,7 @@ func validConfigs() []deploy.Config {
 
 var (
 	ueidOps  = []string{"other-device", "first-byte", "last-byte", "type-byte", "no-type-byte", "short", "long", "text", "empty"}
-	claimOps = []string{"omit-nonce", "omit-ueid", "omit-fdo", "omit-setup-nonce", "nonce-text", "nonce-int", "nonce-array", "nonce-bool", "nonce-null", "nonce-stale", "nonce-short", "nonce-is-hello-nonce", "swap-nonce-ueid", "setup-nonce-short", "setup-nonce-int", "fdo-not-array", "fdo-empty", "fdo-two", "fdo-text"}
+	claimOps = []string{"omit-nonce", "omit-ueid", "omit-fdo", "omit-setup-nonce", "nonce-text", "nonce-int", "nonce-array", "nonce-bool", "nonce-null", "nonce-stale", "nonce-short", "nonce-long", "nonce-long16", "nonce-is-hello-nonce", "swap-nonce-ueid", "setup-nonce-short", "setup-nonce-int", "fdo-not-array", "fdo-empty", "fdo-two", "fdo-text"}
 	xbOps    = []string{"empty", "zeros", "truncated", "bitflip", "random"}
 	signers  = []string{"stranger", "owner", "device2", "otherkind"}
 )
